@@ -476,7 +476,31 @@ func c18(r *Report, s *Sem) {
 		}
 		r.Check(R4, "func "+fnName(cons)+" / returns on context end", p.pos(cons.Pos()), ctxArm, "select arm on ctx.Done() that leaves the loop")
 	}
-	if acc := p.Func("acceptTransports"); acc != nil {
+	acc := p.Func("acceptTransports")
+	if acc == nil {
+		// by role: the function that calls TransportListener.Accept and hands the result to a queue in a select
+		for _, fn := range p.LimeFuncs() {
+			accepts, queues := false, false
+			eachInstr(fn, func(in ssa.Instruction) {
+				if c, ok := in.(*ssa.Call); ok && c.Call.IsInvoke() && c.Call.Method.Name() == "Accept" {
+					if n := namedOf(c.Call.Value.Type()); n != nil && n.Obj().Name() == "TransportListener" {
+						accepts = true
+					}
+				}
+				if sel, ok := in.(*ssa.Select); ok {
+					for _, st := range sel.States {
+						if st.Dir == types.SendOnly {
+							queues = true
+						}
+					}
+				}
+			})
+			if accepts && queues {
+				acc = fn
+			}
+		}
+	}
+	if acc != nil {
 		ctxArm, errRet := false, false
 		eachInstr(acc, func(in ssa.Instruction) {
 			if sel, ok := in.(*ssa.Select); ok {
@@ -492,7 +516,7 @@ func c18(r *Report, s *Sem) {
 				errRet = true
 			}
 		}
-		r.Check(R4, "func acceptTransports / returns on context end or listener error", p.pos(acc.Pos()), ctxArm && errRet, fmt.Sprintf("ctx arm=%v, accept error returned=%v", ctxArm, errRet))
+		r.Check(R4, "acceptor loop / returns on context end or listener error", p.pos(acc.Pos()), ctxArm && errRet, fmt.Sprintf("ctx arm=%v, accept error returned=%v", ctxArm, errRet))
 	} else {
 		r.Undecided(R4, "anchor-unresolved:acceptor", "-", "acceptTransports not found")
 	}
